@@ -239,7 +239,7 @@ func cmdCheck(args []string) {
 				fmt.Fprintf(&b, "\ncandidate counterexample (quantifier-free theory, z3-new):\n%s\n", trimModel(o.Result.Model))
 			}
 			replayed := false
-			if o.Result.Model != "" {
+			{
 				if rep := tryReplay(p, vdir, *prop, o, r.VC, rdir); rep != "" {
 					b.WriteString("\nreplay on the real code:\n" + rep + "\n")
 					replayed = strings.Contains(rep, "REPLAY-CONFIRMED")
